@@ -124,6 +124,8 @@ export function renderType(t) {
       return `typeof ${[t.name, ...t.path].join(".")}`;
     case "keyof":
       return `keyof ${wrap(t.t, "postfix")}`;
+    case "fn":
+      return "(() => void)";
     case "index":
       return `${wrap(t.obj, "postfix")}[${renderType(t.idx)}]`;
     case "mapped":
